@@ -96,8 +96,11 @@ of every broadcasting decision tree (equal / new length 1 / remembered length 1
 / neither; it also covers the einsum subscript normalisation, a sibling
 implementation of broadcasting that three different sub-agents broke
 independently) and the memoisation rule (no `lru_cache`/`memoize` on an argument
-that may be a Python scalar: 1 == 1.0 == True are one key). Still missed: the
-length formula of `arange` for negative integer steps.""",
+that may be a Python scalar: 1 == 1.0 == True are one key). Later rounds added
+two hazard/sibling rules: an operand is never converted (`.item()`, `int()`, ...)
+on its way to dtype inference, and `maximum`/`minimum` are the same code up to the
+comparison. Still missed: the length formula of `arange` for negative integer
+steps and the order of the output subscripts in the general branch of `dot`.""",
     "C04": """
 The strongest claim of the set: for every concrete kind the equality handler the
 dispatcher selects is analysed with two roots, and must read every dataclass
